@@ -532,7 +532,7 @@ static void jnt_convolve_2d_ver_2tap_avx2(const int16_t *const im_block, const i
                                                             r + 2,
                                                             factor_256,
                                                             offset_comp_avg_256,
-                                                            dst + dst8_stride,
+                                                            dst + dst_stride,
                                                             dst8 + dst8_stride);
 
                         xy_y_convolve_2tap_32_avx2(
@@ -541,7 +541,7 @@ static void jnt_convolve_2d_ver_2tap_avx2(const int16_t *const im_block, const i
                                                             r + 2,
                                                             factor_256,
                                                             offset_comp_avg_256,
-                                                            dst + dst8_stride + 32,
+                                                            dst + dst_stride + 32,
                                                             dst8 + dst8_stride + 32);
 
                         dst += 2 * dst_stride;
@@ -658,7 +658,7 @@ static void jnt_convolve_2d_ver_2tap_avx2(const int16_t *const im_block, const i
                                                             r + 2,
                                                             factor_256,
                                                             offset_comp_avg_256,
-                                                            dst + dst8_stride + 0 * 32,
+                                                            dst + dst_stride + 0 * 32,
                                                             dst8 + dst8_stride + 0 * 32);
 
                         xy_y_convolve_2tap_32_avx2(
@@ -667,7 +667,7 @@ static void jnt_convolve_2d_ver_2tap_avx2(const int16_t *const im_block, const i
                                                             r + 2,
                                                             factor_256,
                                                             offset_comp_avg_256,
-                                                            dst + dst8_stride + 1 * 32,
+                                                            dst + dst_stride + 1 * 32,
                                                             dst8 + dst8_stride + 1 * 32);
 
                         xy_y_convolve_2tap_32_avx2(
@@ -676,7 +676,7 @@ static void jnt_convolve_2d_ver_2tap_avx2(const int16_t *const im_block, const i
                                                             r + 2,
                                                             factor_256,
                                                             offset_comp_avg_256,
-                                                            dst + dst8_stride + 2 * 32,
+                                                            dst + dst_stride + 2 * 32,
                                                             dst8 + dst8_stride + 2 * 32);
 
                         xy_y_convolve_2tap_32_avx2(
@@ -685,7 +685,7 @@ static void jnt_convolve_2d_ver_2tap_avx2(const int16_t *const im_block, const i
                                                             r + 2,
                                                             factor_256,
                                                             offset_comp_avg_256,
-                                                            dst + dst8_stride + 3 * 32,
+                                                            dst + dst_stride + 3 * 32,
                                                             dst8 + dst8_stride + 3 * 32);
 
                         dst += 2 * dst_stride;
